@@ -5,6 +5,8 @@ import (
 	"go/token"
 	"go/types"
 	"math/big"
+	"os"
+	"path/filepath"
 	"strings"
 
 	"golang.org/x/tools/go/ssa"
@@ -457,7 +459,18 @@ func (e *Engine) step(s *State, f *Frame, in ssa.Instruction, work *[]*State, pr
 			e.gotoBlock(f, f.blk.Succs[1])
 			return true
 		}
-		// symbolic branch: fork
+		// symbolic branch: prune a side that the path condition excludes (interval reasoning first,
+		// the solver only when a block is being revisited, i.e. inside an unrolled loop)
+		if ft, ff := e.feasibleSides(s, f, c); !ft {
+			s.assume(Not(c))
+			e.gotoBlock(f, f.blk.Succs[1])
+			return true
+		} else if !ff {
+			s.assume(c)
+			e.gotoBlock(f, f.blk.Succs[0])
+			return true
+		}
+		// fork
 		other := s.clone()
 		of := other.top()
 		other.assume(Not(c))
@@ -1132,4 +1145,81 @@ func (e *Engine) doReturn(s *State, f *Frame, res []Value, pos token.Pos, probe 
 	}
 	pf.ip++
 	return true
+}
+
+// feasibleSides decides whether the true / false side of a symbolic branch is satisfiable
+// together with the path condition.  Answers are only used to *prune* (an infeasible side
+// is never executed); an inconclusive answer keeps both sides.
+func (e *Engine) feasibleSides(s *State, f *Frame, c *Term) (bool, bool) {
+	bc := &boundCalc{atoms: atomBounds(s.pc), memo: map[*Term]*ival{}}
+	decide := func(t *Term) (known bool, val bool) {
+		switch t.Op {
+		case "<", "<=":
+			a, b := bc.of(t.Args[0]), bc.of(t.Args[1])
+			strict := t.Op == "<"
+			if a.hi != nil && b.lo != nil {
+				if cmp := a.hi.Cmp(b.lo); cmp < 0 || (!strict && cmp == 0) {
+					return true, true
+				}
+			}
+			if a.lo != nil && b.hi != nil {
+				if cmp := a.lo.Cmp(b.hi); cmp > 0 || (strict && cmp == 0) {
+					return true, false
+				}
+			}
+		case "not":
+			k, v := false, false
+			func() { k, v = decideRec(bc, t.Args[0]) }()
+			if k {
+				return true, !v
+			}
+		}
+		return false, false
+	}
+	if k, v := decide(c); k {
+		return v, !v
+	}
+	// solver-based pruning only inside revisited blocks (unrolled loops with symbolic bounds)
+	if f.visits[f.blk] < 3 || e.pruneCalls > 400 {
+		return true, true
+	}
+	e.pruneCalls++
+	ft := e.quickSat(append(append([]*Term(nil), s.pc...), c))
+	ff := e.quickSat(append(append([]*Term(nil), s.pc...), Not(c)))
+	if !ft && !ff {
+		return true, true // contradictory path: let it run out
+	}
+	return ft, ff
+}
+
+func decideRec(bc *boundCalc, t *Term) (bool, bool) {
+	switch t.Op {
+	case "<", "<=":
+		a, b := bc.of(t.Args[0]), bc.of(t.Args[1])
+		strict := t.Op == "<"
+		if a.hi != nil && b.lo != nil {
+			if cmp := a.hi.Cmp(b.lo); cmp < 0 || (!strict && cmp == 0) {
+				return true, true
+			}
+		}
+		if a.lo != nil && b.hi != nil {
+			if cmp := a.lo.Cmp(b.hi); cmp > 0 || (strict && cmp == 0) {
+				return true, false
+			}
+		}
+	}
+	return false, false
+}
+
+// quickSat: false only if a solver proves the conjunction unsatisfiable within 3 s.
+func (e *Engine) quickSat(hyps []*Term) bool {
+	dir, err := os.MkdirTemp("", "govc-prune")
+	if err != nil {
+		return true
+	}
+	defer os.RemoveAll(dir)
+	file := filepath.Join(dir, "q.smt2")
+	os.WriteFile(file, []byte(RenderVC(hyps, nil, false)), 0o644)
+	r := solveRace(file, 3, []string{"z3-new", "cvc5"})
+	return r.status != "unsat"
 }
